@@ -32,11 +32,11 @@ IMax(i) == F64(TMax(Formats[i].ty))
 Min0(S) == IF ~Has(S, "min") /\ ~Has(S, "emin") THEN None
            ELSE IF ~Has(S, "min") THEN Some(FAdd1(F64(S.emin)))
            ELSE IF ~Has(S, "emin") THEN Some(F64(S.min))
-           ELSE Some(Max(F64(S.min), FAdd1(F64(S.emin))))
+           ELSE Some(PMax(F64(S.min), FAdd1(F64(S.emin))))
 Max0(S) == IF ~Has(S, "max") /\ ~Has(S, "emax") THEN None
            ELSE IF ~Has(S, "max") THEN Some(FSub1(F64(S.emax)))
            ELSE IF ~Has(S, "emax") THEN Some(F64(S.max))
-           ELSE Some(Min(F64(S.max), FSub1(F64(S.emax))))
+           ELSE Some(PMin(F64(S.max), FSub1(F64(S.emax))))
 
 FmtIdx(S) == IF Has(S, "fmt") /\ \E i \in DOMAIN Formats : Formats[i].fmt = S.fmt
              THEN Some(CHOOSE i \in DOMAIN Formats : Formats[i].fmt = S.fmt)
